@@ -1342,20 +1342,20 @@ class Folder:
                 if isinstance(v, list) and not isinstance(v, PySeq):
                     return _permute(v, perm_)
                 raise Unfoldable("permute of a non-tensor")
-            if m == "cumsum" and not isinstance(self._peek(node.func.value), PySeq) and (len(node.args) == 1 or (not node.args and len(node.keywords) == 1 and node.keywords[0].arg == "dim")):
+            if m in ("cumsum", "cumprod") and not isinstance(self._peek(node.func.value), PySeq) and (len(node.args) == 1 or (not node.args and len(node.keywords) == 1 and node.keywords[0].arg == "dim")):
                 v = self.fold(node.func.value)
                 d = self.fold(node.args[0] if node.args else node.keywords[0].value)
                 if isinstance(v, list):
 
-                    def _cs(f_):
-                        out_, tot_ = [], 0
+                    def _cs(f_, mul_=(m == "cumprod")):
+                        out_, tot_ = [], (1 if mul_ else 0)
                         for x_ in f_:
-                            tot_ = tot_ + x_
+                            tot_ = tot_ * x_ if mul_ else tot_ + x_
                             out_.append(tot_)
                         return out_
 
                     return _map_fibres(v, d, _cs)
-                raise Unfoldable("cumsum of a non-tensor")
+                raise Unfoldable(f"{m} of a non-tensor")
             if (m in ("view", "reshape") and len(node.args) == 1 and isinstance(node.args[0], ast.UnaryOp) and unparse(node.args[0]) == "-1") or (m == "flatten" and not node.args):
                 return _flat(self.fold(node.func.value))
             if m in ("any", "all") and (node.args or node.keywords):
@@ -1541,6 +1541,9 @@ class Folder:
                         return isinstance(v, list) and not isinstance(v, PySeq)
                     return isinstance(v, table[tn])
                 raise Unfoldable(f"isinstance against {tn}")
+            if short in ("cumsum", "cumprod") and nm.startswith("torch.") and node.args and (len(node.args) == 2 or (len(node.args) == 1 and len(node.keywords) == 1 and node.keywords[0].arg == "dim")):
+                # torch.cumsum(x, dim) is x.cumsum(dim)
+                return self.fold(ast.copy_location(ast.Call(func=ast.copy_location(ast.Attribute(value=node.args[0], attr=short, ctx=ast.Load()), node), args=list(node.args[1:]), keywords=list(node.keywords)), node))
             if short in ("flip", "fliplr", "flipud") and node.args:
                 v = self.fold(node.args[0])
                 if short == "flip":
